@@ -395,7 +395,7 @@ var cmdTable = []cmdCall{
 
 // splitText draws a text biased towards the split rules.
 func splitText(g G, L int, allowNL bool) string {
-	kind := g.Intn(9)
+	kind := g.Intn(10)
 	n := 0
 	switch g.Intn(6) {
 	case 0:
@@ -416,6 +416,26 @@ func splitText(g G, L int, allowNL bool) string {
 	}
 	if n > 4000 {
 		n = 4000
+	}
+	if kind == 9 {
+		// valid UTF-8, mostly multi-byte, with spaces and sentence breaks: the
+		// byte at a split position is often the middle of a rune
+		var u []byte
+		for len(u) < n {
+			switch g.Intn(8) {
+			case 0:
+				u = append(u, ' ')
+			case 1:
+				u = append(u, ". "...)
+			case 2:
+				u = append(u, string(rune(g.Range(0x1f300, 0x1f6ff)))...)
+			case 3:
+				u = append(u, string(rune(g.Range(0x100, 0x17f))<<8|rune([]int{0x0a, 0x0d, 0x20, 0x2e}[g.Intn(4)]))...)
+			default:
+				u = append(u, string(rune(g.Range(0xa1, 0x24ff)))...)
+			}
+		}
+		return string(u)
 	}
 	b := make([]byte, n)
 	for i := range b {
@@ -576,7 +596,7 @@ func sendCommands(e *Env) {
 			case c11 && i == 1:
 				args[i] = splitText(g, L, false)
 			case c11:
-				args[i] = []string{"#chan", "nick", "x"}[g.Intn(3)]
+				args[i] = []string{"#chan", "nick", "x", "#" + strings.Repeat("long-channel-name.", 3), "&" + strings.Repeat("c", 200)}[g.W(3, 3, 2, 1, 1)]
 				if i == 2 {
 					args[i] = []string{"ACTION", "ping", "Version"}[g.Intn(3)]
 				}
@@ -584,6 +604,10 @@ func sendCommands(e *Env) {
 				args[i] = splitText(g, L, true)
 			case g.Pct(10):
 				args[i] = strings.Repeat(hostilePool[g.Intn(len(hostilePool))], g.Range(1, 400))
+			case g.Pct(10):
+				// non-ASCII around a line break: a sanitiser working on runes or
+				// on bytes must cut at the same place
+				args[i] = wirePayload(g) + hostilePool[g.Intn(len(hostilePool))] + wirePayload(g)
 			default:
 				args[i] = hostilePool[g.Intn(len(hostilePool))] + g.Str(alnum, 0, 6) + hostilePool[g.Intn(len(hostilePool))]
 			}
